@@ -107,7 +107,7 @@ def Ext.next (x : Ext) (s : State) (op : Op) : Ext :=
   | .psend a d t am f =>
     if (step s op).1.nextTxId = s.nextTxId + 1 then
       { x with sent := x.sent ++ [⟨s.nextTxId, a, d, t, am, f⟩], sentEvm := x.sentEvm ++ [s.nextTxId] } else x
-  | .incFee id _ _ add =>
+  | .incFee id _ _ add _ =>
     match (step s op).2 with
     | .ok _ => { x with raised := x.raised ++ [(id, add)] }
     | _ => x
@@ -137,7 +137,7 @@ def Ext.nextStd (x : Ext) (s : State) (op : Op) : Ext :=
   | .psend a d t am f =>
     if (step s op).1.nextTxId = s.nextTxId + 1 then
       { x with sent := x.sent ++ [⟨s.nextTxId, a, d, t, am, f⟩], sentEvm := x.sentEvm ++ [s.nextTxId] } else x
-  | .incFee id _ _ add =>
+  | .incFee id _ _ add _ =>
     match (step s op).2 with
     | .ok _ => { x with raised := x.raised ++ [(id, add)] }
     | _ => x
